@@ -1120,9 +1120,9 @@ class CircuitTemplate(AbstractBaseTemplate):
         for c_scope, c in self.circuits.items():
             edges_tmp = c.collect_edges()
             for svar, tvar, template, edge_dict in edges_tmp:
-                for key, val in edge_dict.copy().items():
-                    if type(val) is str and val != 'source':
-                        edge_dict[key] = f"{c_scope}/{val}"
+                # the attribute dictionary belongs to the sub-circuit's template: prefix the variable paths in a copy
+                edge_dict = {key: f"{c_scope}/{val}" if type(val) is str and val != 'source' else val
+                             for key, val in edge_dict.items()}
                 edges.append((f"{c_scope}/{svar}", f"{c_scope}/{tvar}", template, edge_dict))
         if delay_info:
             for i, (svar, tvar, template, edge) in enumerate(edges):
